@@ -343,8 +343,10 @@ private:
             }
           }
 
+          // The error is taken by value: it may be stored in the cleanup
+          // operation that is destroyed below, before it is forwarded.
           template <typename Error>
-          void set_error(Error&& error) && noexcept {
+          void set_error(Error error) && noexcept {
             auto& op = op_;
             op.cleanupOp_.destruct();
 
@@ -354,7 +356,7 @@ private:
               unifex::set_error(
                   std::move(op.receiver_), std::move(op.stream_.nextError_));
             } else {
-              unifex::set_error(std::move(op.receiver_), (Error&&)error);
+              unifex::set_error(std::move(op.receiver_), std::move(error));
             }
           }
         };
